@@ -372,10 +372,15 @@ class BacktestingDispatcher(EventDispatcher):
     async def _dispatch_events(self, dt: datetime.datetime):
         # Pop events, push them into the task pool, and wait those to finish executing.
         self._last_dt = dt
-        for source, evnt in self._event_mux.pop_while(dt):
-            await self._handlers_task_pool.push(
-                self._dispatch_event(EventDispatch(event=evnt, handlers=self._event_handlers.get(source, [])))
-            )
+        # All the events have to be popped before any of them gets dispatched. Pushing into the task pool may block if
+        # the pool is full, and events generated by the handlers that run in the meantime should not be dispatched
+        # before the ones that were already available.
+        event_dispatches = [
+            EventDispatch(event=evnt, handlers=self._event_handlers.get(source, []))
+            for source, evnt in self._event_mux.pop_while(dt)
+        ]
+        for event_dispatch in event_dispatches:
+            await self._handlers_task_pool.push(self._dispatch_event(event_dispatch))
         await self._handlers_task_pool.wait()
 
 
